@@ -110,7 +110,117 @@ def table(repo):
                     hooks.append(('%s.%s' % (fn.name, m.name), m.lineno, len(m.args.args), expected))
     if not attr_refs:
         raise ValueError('no module attribute references found in %s' % MODULE)
-    return dict(attr_refs=attr_refs, free=free, hooks=hooks)
+    out = dict(attr_refs=attr_refs, free=free, hooks=hooks)
+    out.update(_sites(tree, expected))
+    return out
+
+
+PP_PARAM = 'pressureProjectionDegree'
+MODE_PARAM = 'mode2D'
+PP_KERNEL = 'volume_average_J_gradient_transformation'
+HOOK_CALL_NAMES = ('modify_element_gradient', 'grad_2D_to_3D')
+
+
+def _params(fn):
+    a = fn.args
+    return [x.arg for x in a.posonlyargs + a.args]
+
+
+def _tests_of(fn):
+    """every expression evaluated for its truth value inside fn: if/while/ternary/assert tests, operands of and/or/not, comprehension filters"""
+    out = []
+    for m in ast.walk(fn):
+        if isinstance(m, (ast.If, ast.While, ast.IfExp, ast.Assert)):
+            out.append(m.test)
+        elif isinstance(m, ast.comprehension):
+            out.extend(m.ifs)
+        elif isinstance(m, ast.BoolOp):
+            out.extend(m.values)
+        elif isinstance(m, ast.UnaryOp) and isinstance(m.op, ast.Not):
+            out.append(m.operand)
+    # and/or/not nodes themselves are represented by their operands
+    return [t for t in out if not isinstance(t, ast.BoolOp) and not (isinstance(t, ast.UnaryOp) and isinstance(t.op, ast.Not))]
+
+
+def _mentions(expr, name):
+    return any(isinstance(m, ast.Name) and m.id == name for m in ast.walk(expr))
+
+
+def _is_none_compare(t, name):
+    return (isinstance(t, ast.Compare) and isinstance(t.left, ast.Name) and t.left.id == name and len(t.ops) == 1
+            and isinstance(t.ops[0], (ast.Is, ast.IsNot)) and isinstance(t.comparators[0], ast.Constant) and t.comparators[0].value is None)
+
+
+def _passes(call, fn_callee, pname_callee, name):
+    """does `call` (to the top-level function fn_callee) pass the bare name `name` in the slot of fn_callee's parameter pname_callee?"""
+    ps = _params(fn_callee)
+    if pname_callee not in ps:
+        return False
+    i = ps.index(pname_callee)
+    if i < len(call.args) and isinstance(call.args[i], ast.Name) and call.args[i].id == name:
+        return True
+    return any(k.arg == pname_callee and isinstance(k.value, ast.Name) and k.value.id == name for k in call.keywords)
+
+
+def _sites(tree, hook_arity):
+    tops = {n.name: n for n in tree.body if isinstance(n, ast.FunctionDef)}
+    calls_in = lambda fn: [m for m in ast.walk(fn) if isinstance(m, ast.Call) and isinstance(m.func, ast.Name)]
+    # ---- pressure-projection sites: every top-level function with a parameter pressureProjectionDegree
+    pp_funcs = [fn for fn in tops.values() if PP_PARAM in _params(fn)]
+    direct = {fn.name: any(c.func.id == PP_KERNEL for c in calls_in(fn)) for fn in pp_funcs}
+    reaches = dict(direct)
+    for _ in range(len(pp_funcs) + 1):          # closure under delegation with the parameter passed through unchanged
+        for fn in pp_funcs:
+            if not reaches[fn.name]:
+                reaches[fn.name] = any(c.func.id in reaches and reaches[c.func.id] and c.func.id != fn.name
+                                       and _passes(c, tops[c.func.id], PP_PARAM, PP_PARAM) for c in calls_in(fn))
+    pp_sites = []
+    for fn in pp_funcs:
+        tests = [t for t in _tests_of(fn) if _mentions(t, PP_PARAM)]
+        rebinds = sum(1 for m in ast.walk(fn) if isinstance(m, ast.Name) and m.id == PP_PARAM and isinstance(m.ctx, (ast.Store, ast.Del)))
+        pp_sites.append((fn.name, fn.lineno, len(tests), sum(1 for t in tests if _is_none_compare(t, PP_PARAM)), rebinds, bool(reaches[fn.name]),
+                         bool(direct[fn.name])))
+    # ---- 2D-mode sites: every top-level function with a parameter mode2D
+    mode_funcs = [fn for fn in tops.values() if MODE_PARAM in _params(fn)]
+
+    def literals(fn):
+        lits = set()
+        for m in ast.walk(fn):
+            if isinstance(m, ast.Compare) and isinstance(m.left, ast.Name) and m.left.id == MODE_PARAM:
+                for c in m.comparators:
+                    if isinstance(c, ast.Constant) and isinstance(c.value, str):
+                        lits.add(c.value)
+        return lits
+    own = {fn.name: literals(fn) for fn in mode_funcs}
+    mode_sites = []
+    for fn in mode_funcs:
+        deleg = any(c.func.id in own and c.func.id != fn.name and {'plane strain', 'axisymmetric'} <= own[c.func.id]
+                    and _passes(c, tops[c.func.id], MODE_PARAM, MODE_PARAM) for c in calls_in(fn))
+        mode_sites.append((fn.name, fn.lineno, 'plane strain' in own[fn.name], 'axisymmetric' in own[fn.name], bool(deleg)))
+    # ---- call arities: every call by bare name of a top-level function of this module (no star arguments), and every call of an
+    # element-gradient hook variable (must pass as many positional arguments as FunctionSpace.default_modify_element_gradient takes)
+    call_arities = []
+    for fn in tops.values():
+        for c in calls_in(fn):
+            star = any(isinstance(a, ast.Starred) for a in c.args) or any(k.arg is None for k in c.keywords)
+            if c.func.id in tops and not star:
+                callee = tops[c.func.id]
+                ps = _params(callee)
+                nreq = len(ps) - len(callee.args.defaults)
+                kwnames = set(ps) | {x.arg for x in callee.args.kwonlyargs}
+                kw_ok = all(k.arg in kwnames and (k.arg not in ps or ps.index(k.arg) >= len(c.args)) for k in c.keywords)
+                nmax = len(ps) + len(callee.args.kwonlyargs) if not callee.args.vararg else 10 ** 6
+                given = len(c.args) + len(c.keywords)
+                # required parameters must be covered by the positionals or by keyword
+                covered = all(i < len(c.args) or any(k.arg == p_ for k in c.keywords) for i, p_ in enumerate(ps[:nreq]))
+                call_arities.append((fn.name, c.func.id, c.lineno, given, nreq if covered else given + 1, nmax, bool(kw_ok)))
+            elif c.func.id in HOOK_CALL_NAMES and c.func.id not in tops and not star:
+                call_arities.append((fn.name, c.func.id + ' (hook variable)', c.lineno, len(c.args) + len(c.keywords), hook_arity, hook_arity,
+                                     not c.keywords))
+    call_arities.sort(key=lambda t: (t[2], t[1]))
+    if len([x for x in pp_sites if x[0].startswith('create_')]) < 3:
+        raise ValueError('fewer than three factories with a %s parameter found in %s' % (PP_PARAM, MODULE))
+    return dict(pp_sites=pp_sites, mode_sites=mode_sites, call_arities=call_arities)
 
 
 def text(repo):
@@ -133,8 +243,33 @@ def text(repo):
            'Definition refs_all_ok : bool :=',
            '  forallb attr_ok attr_refs && (match free_names with [] => true | _ => false end) && forallb hook_ok hook_arities.',
            'Definition broken_counts : list nat :=',
-           '  [length (filter (fun r => negb (attr_ok r)) attr_refs); length free_names; length (filter (fun h => negb (hook_ok h)) hook_arities)].']
-    return '\n'.join(out) + '\n', 'ok (%d attribute references, %d free names, %d hooks)' % (len(t['attr_refs']), len(t['free']), len(t['hooks']))
+           '  [length (filter (fun r => negb (attr_ok r)) attr_refs); length free_names; length (filter (fun h => negb (hook_ok h)) hook_arities)].',
+           '',
+           '(* pressure-projection sites: (function with a parameter pressureProjectionDegree, line, tests that mention the parameter,',
+           '   those of the form `pressureProjectionDegree is [not] None`, rebindings of the parameter, reaches',
+           '   volume_average_J_gradient_transformation (directly, or by passing the parameter unchanged to a function that does), directly) *)',
+           'Definition pp_sites : list (string * nat * nat * nat * nat * bool * bool) :=',
+           '  [ ' + '\n  ; '.join('(%s, %d, %d, %d, %d, %s, %s)' % (q(f), ln, nt, nn, rb, b(re), b(di)) for (f, ln, nt, nn, rb, re, di) in t['pp_sites']) + ' ].', '',
+           '(* 2D-mode sites: (function with a parameter mode2D, line, compares it with "plane strain", with "axisymmetric",',
+           '   passes it unchanged to a function that compares it with both) *)',
+           'Definition mode_sites : list (string * nat * bool * bool * bool) :=',
+           '  [ ' + '\n  ; '.join('(%s, %d, %s, %s, %s)' % (q(f), ln, b(p_), b(a), b(d)) for (f, ln, p_, a, d) in t['mode_sites']) + ' ].', '',
+           '(* calls inside Mechanics.py of its own top-level functions and of element-gradient hook variables:',
+           '   (caller, callee, line, arguments given, fewest accepted, most accepted, keywords name parameters not already given) *)',
+           'Definition call_arities : list (string * string * nat * nat * nat * nat * bool) :=',
+           '  [ ' + '\n  ; '.join('(%s, %s, %d, %d, %d, %d, %s)' % (q(f), q(g), ln, n, lo, hi, b(k)) for (f, g, ln, n, lo, hi, k) in t['call_arities']) + ' ].', '',
+           'Definition pp_ok (s : string * nat * nat * nat * nat * bool * bool) : bool :=',
+           '  match s with (_, _, nt, nn, rb, re, _) => Nat.eqb nt nn && Nat.eqb rb 0 && re end.',
+           'Definition mode_ok (s : string * nat * bool * bool * bool) : bool :=',
+           '  match s with (_, _, p, a, d) => d || (p && a) end.',
+           'Definition call_ok (c : string * string * nat * nat * nat * nat * bool) : bool :=',
+           '  match c with (_, _, _, n, lo, hi, k) => Nat.leb lo n && Nat.leb n hi && k end.',
+           'Definition sites_all_ok : bool := forallb pp_ok pp_sites && forallb mode_ok mode_sites && forallb call_ok call_arities.',
+           'Definition site_broken_counts : list nat :=',
+           '  [length (filter (fun s => negb (pp_ok s)) pp_sites); length (filter (fun s => negb (mode_ok s)) mode_sites);',
+           '   length (filter (fun c => negb (call_ok c)) call_arities)].']
+    return '\n'.join(out) + '\n', 'ok (%d attribute references, %d free names, %d hooks, %d pressure-projection sites, %d mode sites, %d calls)' % (
+        len(t['attr_refs']), len(t['free']), len(t['hooks']), len(t['pp_sites']), len(t['mode_sites']), len(t['call_arities']))
 
 
 def generate(repo, outdir):
